@@ -169,14 +169,28 @@ def sym_kernel(R, tus, fname, symloops, extra_inputs=None):
 
 
 def find_tol_cond(path, tolname):
+    """the comparison of the error with tol*tol among the conditions of this path, with the truth it has on the path (None when the
+    path only knows that a conjunction failed / a disjunction held): ('<', error, truth, text, line).  Negations and both
+    connectives are read through, so  if (!(e < t) || !(e < d)) release; else assign;  is the same test as  if (e < t && e < d) assign"""
+    tt = vn.atom(tolname) * vn.atom(tolname)
+
+    def leaves(c, pol):
+        if c[0] == "not":
+            for x in leaves(c[1], None if pol is None else (not pol)):
+                yield x
+        elif c[0] in ("and", "or"):
+            known = pol is not None and ((c[0] == "and") == pol)      # a true conjunction / a false disjunction fixes every part
+            for sub in (c[1], c[2]):
+                for x in leaves(sub, pol if known else None):
+                    yield x
+        else:
+            yield c, pol
     for op, a, b, pol, text, line in path.conds:
-        if op in ("<", "<=") and vn.equal(b, vn.atom(tolname) * vn.atom(tolname)):
-            return op, a, pol, text, line
-        if op == "and" and not pol:
-            # failed conjunction: look for the tolerance conjunct inside
-            for sub in vn_c.flatten_true((op, a, b)):
-                if sub[0] in ("<", "<=") and vn.equal(sub[2], vn.atom(tolname) * vn.atom(tolname)):
-                    return sub[0], sub[1], None, text, line
+        for (lop, la, lb), lpol in leaves((op, a, b), pol):
+            if lop in ("<", "<=") and vn.equal(lb, tt):
+                return lop, la, lpol, text, line
+            if lop in (">", ">=") and vn.equal(la, tt):
+                return {">": "<", ">=": "<="}[lop], lb, lpol, text, line
     return None
 
 
